@@ -276,7 +276,8 @@ fn xmm_json(x: &[u128; 16]) -> Value {
     Value::Object(m)
 }
 
-fn machine(case: &insn::Case, start: u64) -> Option<Axecutor> {
+/// stack = Some(len): the stack is set up by init_stack(len) (RSP keeps what init_stack gave it: a RET at that level is "top level")
+fn machine(case: &insn::Case, start: u64, stack: Option<u64>) -> Option<Axecutor> {
     let lay = Layout;
     let code_img = lay.image(&AREAS[0], case);
     let mut ax = Axecutor::new(&code_img, CODE, start).ok()?;
@@ -284,7 +285,13 @@ fn machine(case: &insn::Case, start: u64) -> Option<Axecutor> {
         ax.mem_init_area(a.start, lay.image(a, case)).ok()?;
         ax.mem_prot(a.start, a.prot).ok()?;
     }
+    if let Some(len) = stack {
+        ax.init_stack(len).ok()?;
+    }
     for (i, name) in crate::interp::GPRS.iter().take(16).enumerate() {
+        if i == 6 && stack.is_some() {
+            continue;
+        }
         ax.reg_write_64(crate::interp::reg_by_name(name).unwrap(), case.pre.regs[i]).ok()?;
     }
     for i in 0..16 {
@@ -311,10 +318,16 @@ pub fn run(n_programs: usize, len: usize, seed: u64, forms_path: &str, out: &str
         tries += 1;
         crate::interp::PROGRESS.fetch_add(1, std::sync::atomic::Ordering::Relaxed); // the watchdog looks for a hang inside ONE program
         let mut items = gen_items(&mut g, &forms, len);
+        // two in five programs run on a stack set up by init_stack and end in a RET (a top-level RET ends the run, as real programs do)
+        let stack_mode = g.rng.gen_range(0..5) < 2;
+        if stack_mode {
+            items.push(Item { instr: Instruction::with(Code::Retnq), branch_to: None, label: 0, back_to: 0 });
+        }
         let (start, bytes, _addrs) = match layout(&mut items, end) {
             Some(x) => x,
             None => continue,
         };
+        let stack = if stack_mode { Some(0x800u64) } else { None };
         // initial state: random registers, valid stack pointer, program bytes over the pattern memory
         let base = g.make(Code::Nopd, "prog", false, MemShape::Base, Place::Rw, false, Register::None, 0).expect("nop");
         let mut case = base.clone();
@@ -326,11 +339,23 @@ pub fn run(n_programs: usize, len: usize, seed: u64, forms_path: &str, out: &str
         case.pre.gs = 0;
         case.bytes = bytes.clone();
         let pre = case.pre.clone();
-        let mut ax = match machine(&case, start) {
+        let mut ax = match machine(&case, start, stack) {
             Some(a) => a,
             None => continue,
         };
-        writeln!(f, "{}", json!({"ev": "reset", "c": made, "code_end": end, "hasstack": false, "mh": mem_hash(&ax),
+        // the stack area init_stack created (any area beyond the fixed layout), and the RSP it left
+        let mut xa: Vec<Value> = Vec::new();
+        let mut pre = pre;
+        if stack_mode {
+            for (i, (s0, l0, p0, _d, _n)) in ax.verif_area_meta().iter().enumerate() {
+                if !AREAS.iter().any(|a| a.start == *s0) {
+                    xa.push(json!({"start": s0, "len": l0, "prot": p0}));
+                    pre.ov.push((*s0, ax.verif_area_data(i).to_vec()));
+                }
+            }
+            pre.regs[6] = ax.reg_read_64(crate::interp::reg_by_name("RSP").unwrap()).unwrap_or(0);
+        }
+        writeln!(f, "{}", json!({"ev": "reset", "c": made, "code_end": end, "hasstack": stack_mode, "xa": xa, "mh": mem_hash(&ax),
             "pre": {"r": regs_json(&pre.regs), "x": xmm_json(&pre.xmm), "f": fl_json(pre.fl), "fs": b8(0), "gs": b8(0), "rip": b8(start),
                     "ov": pre.ov.iter().map(|(a, b)| json!([a, b])).collect::<Vec<_>>()}}))?;
         // ---- run 1: step by step ----------------------------------------------------------------------------------
@@ -428,7 +453,7 @@ pub fn run(n_programs: usize, len: usize, seed: u64, forms_path: &str, out: &str
             }
         }
         // ---- run 2: the same program through execute() -------------------------------------------------------------
-        if let Some(mut ax2) = machine(&case, start) {
+        if let Some(mut ax2) = machine(&case, start, stack) {
             if ended == "cap" {
                 let _ = ax2.set_max_instructions(cap as u64);
             }
@@ -439,7 +464,7 @@ pub fn run(n_programs: usize, len: usize, seed: u64, forms_path: &str, out: &str
         // ---- run 3: execute() under an instruction limit N < number of completed steps, then one more step ----------
         if steps_ok >= 2 {
             let n = g.rng.gen_range(1..steps_ok) as u64;
-            if let Some(mut ax3) = machine(&case, start) {
+            if let Some(mut ax3) = machine(&case, start, stack) {
                 let _ = ax3.set_max_instructions(n);
                 let r = catch_unwind(AssertUnwindSafe(|| async_std::task::block_on(ax3.execute())));
                 let o = match r { Ok(Ok(_)) => "ok", Ok(Err(_)) => "err", Err(_) => "crash" };
